@@ -127,6 +127,11 @@ impl Q {
     pub fn approx_eq_decimal(&self, got: Decimal, rel_tol_pow10: u32) -> bool {
         // |self - got| <= |self| * 10^-tol  (plus absolute 10^-27 slack)
         let g = Q::from_decimal(got);
+        // a difference that does not even fit the exact representation is certainly not "approximately equal"
+        let fits = |a: &Q, b: &Q| a.n.checked_mul(b.d).is_some() && b.n.checked_mul(a.d).is_some() && a.d.checked_mul(b.d).is_some();
+        if !fits(self, &g) {
+            return (self.to_f64() - g.to_f64()).abs() <= self.to_f64().abs() * 1e-15;
+        }
         let diff = self.sub(g).abs();
         if diff.is_zero() {
             return true;
@@ -136,7 +141,11 @@ impl Q {
         diff.cmp(&tol) != Ordering::Greater || diff.cmp(&abs_slack) != Ordering::Greater
     }
     pub fn cmp(&self, o: &Q) -> Ordering {
-        (self.n.checked_mul(o.d).expect("Q cmp")).cmp(&o.n.checked_mul(self.d).expect("Q cmp"))
+        match (self.n.checked_mul(o.d), o.n.checked_mul(self.d)) {
+            (Some(a), Some(b)) => a.cmp(&b),
+            // astronomically different magnitudes: floating point is enough to order them
+            _ => self.to_f64().partial_cmp(&o.to_f64()).unwrap_or(Ordering::Equal),
+        }
     }
     pub fn to_f64(&self) -> f64 {
         self.n as f64 / self.d as f64
